@@ -37,7 +37,9 @@ CURATED = ['c1ccccc1', 'Cc1ccccc1', 'c1ccncc1', 'c1ccoc1', 'C1CCCCC1', 'C1CC2CCC
            'CC(C)(C)C', 'CC=CC', r'C/C=C\C', r'C/C=C/C', 'C#CC', 'C=C=C', 'CC(=O)OC', 'OCC(O)CO', 'CC(=O)[O-]',
            '[NH3+]CC([O-])=O', 'C[CH2]', '[CH2]C=C', '[CH]C', '[C]C', 'C([Pt])C', 'C([Pt])([Pt])C', 'OC([Pt])C',
            'C([Ru])C', 'C(=O)([Pt])O', 'C->[Pt]', 'CC->[Pt]', '[Pt][H]', 'O', '[H][H]', 'C', 'CO', 'c1ccc2ccccc2c1',
-           'C1=CC=CC=C1', 'CSC', 'CP(C)C', 'ClCCl', 'C[Si](C)(C)C', 'N#N', '[O][O]', 'C1CO1', 'CC1=CCCCC1']
+           'C1=CC=CC=C1', 'CSC', 'CP(C)C', 'ClCCl', 'C[Si](C)(C)C', 'N#N', '[O][O]', 'C1CO1', 'CC1=CCCCC1',
+           # some hydrogens written as atoms (isotope labels), the others implicit
+           '[2H]C(C)C', '[2H]OC', '[2H]O', '[2H]C([2H])=O']
 
 
 def small_molecules():
